@@ -400,7 +400,7 @@ func ruleResetCover(c *RC) *RuleResult {
 	vp := mkTerm(KParam, c.A.epochViewParm.Name())
 	vp.Unsigned = true
 	init.F.add(Lit{mkAtom("eq", vp, tZero), true})
-	exits := c.A.walkFunc(ew, init, false)
+	exits := c.exitsFrom(ew, init, false)
 	if len(exits) == 0 {
 		r.unresolved("view-0 paths of the epoch writer")
 		return r
